@@ -23,7 +23,9 @@
 //   sb <CAP> ropen <X> <cursor>        => <cursor>
 //   sb <CAP> read <w>                  => <hexvalue> <cursor>
 //   f9probe <N> <u> <w>                => ok|crash            (mode f9: operator bool on an exact-size heap
-//                                                              block in a forked child; crash = ASan report)
+//                                                              block in a forked child; crash = ASan report.
+//                                                              Regression check of the repaired finding F9:
+//                                                              every probe must answer ok)
 // X is a or b; <hex> is two lower-case digits per byte, byte 0 first.
 // The property is also evaluated directly: ideal-set shadows (std::bitset) for the arrays, a
 // std::vector<bool> shadow and write->read round trips for the streams; violations are printed as
@@ -37,7 +39,7 @@
 // usage: c18_harness <seed> <count> [rand|exh|f9|all]
 //   rand (default): about <count> random operations in sessions, biased to unit/byte boundaries
 //   exh : exhaustive small domains (every N, index, view; alignment 0..7 x width 1..32 x boundary values)
-//   f9  : forked ASan probes of Bits/CBits::operator bool at the end of a heap block
+//   f9  : forked ASan probes of Bits/CBits::operator bool at the end of a heap block (F9 regression: all ok)
 #define HFSM2_ENABLE_SERIALIZATION
 #include <hfsm2/machine.hpp>
 
@@ -171,8 +173,8 @@ struct BAImpl final : BAIface {
 	static_assert(sizeof(BA) == UC, "BitArrayT is exactly its storage");
 	static_assert(BA::UNIT_COUNT == UC, "unit count");
 
-	// the array sits between guard bytes inside one object, so that the F9 tail read of operator bool
-	// stays intra-object here (it is probed separately in mode f9)
+	// the array sits between guard bytes inside one object; a read just past the array (former finding F9 of
+	// operator bool) would be intra-object here and invisible to the sanitizers, so it is probed separately in mode f9
 	struct Slot { uint8_t pre[8]; BA a; uint8_t post[8]; };
 	Slot s[2];
 
@@ -355,7 +357,8 @@ struct BASession {
 	}
 	void opSetAll(int x) {
 		impl->setall(x);
-		for (unsigned i = 0; i < 8 * UC; ++i) sh[x].set(i);
+		sh[x].reset();
+		for (unsigned i = 0; i < N; ++i) sh[x].set(i);	// ideal: exactly the indices below CAPACITY (padding stays clear)
 		printf("ba %u setall %c => %s\n", N, nm(x), hex(x).c_str());
 		stat("ba.setall"); if (N % 8) stat("ba.setall_with_padding");
 		checkAll("setall", x);
@@ -427,7 +430,7 @@ struct BASession {
 	void viewStat(unsigned u, unsigned w) {
 		stat(w % 8 == 0 ? "bv.width_mult8" : "bv.width_partial");
 		if (u + (w + 7) / 8 == UC) stat("bv.ends_at_array_end");
-		if (w % 8 == 0 && u + w / 8 == UC) stat("bv.f9_shape(width%8==0,at_end)");
+		if (w % 8 == 0 && u + w / 8 == UC) stat("bv.former_f9_shape(width%8==0,at_end)");
 		if (8 * u + w > N) stat("bv.wider_than_capacity");
 	}
 	void opVGet(int x, unsigned u, unsigned w, unsigned i, int form) {
@@ -439,6 +442,9 @@ struct BASession {
 	}
 	void opVSet(int x, unsigned u, unsigned w, unsigned i, int form) {
 		form = norm(form);
+		// a view may be declared wider than the capacity (bits() only checks the unit range); writing through it
+		// beyond CAPACITY would set a padding bit, which is outside the contract modelled (Props.C18 Reachable)
+		if (8 * u + i >= N) { i = N - 1 - 8 * u; stat("bv.set_index_clamped_to_capacity"); }
 		impl->vset(x, u, w, i, form); sh[x].set(8 * u + i);
 		const char* n = form == 0 ? "set" : form == 2 ? "sset" : "tset";
 		printf("bv %u %u %u %s %c %u => %s\n", N, u, w, n, nm(x), i, hex(x).c_str());
@@ -458,6 +464,7 @@ struct BASession {
 		// ideal: exactly [8u, 8u+w) is cleared
 		Shadow ideal = sh[x];
 		for (unsigned i = 0; i < w; ++i) ideal.reset(8 * u + i);
+		const std::string before = hex(x);
 		impl->vclrall(x, u, w, form);
 		printf("bv %u %u %u %s %c => %s\n", N, u, w, form == 3 ? "tclrall" : "clrall", nm(x), hex(x).c_str());
 		stat(form == 3 ? "bv.tclrall" : "bv.clrall"); viewStat(u, w);
@@ -468,8 +475,8 @@ struct BASession {
 		Shadow now;
 		for (unsigned i = 0; i < 8 * UC; ++i) if ((p[i / 8] >> (i % 8)) & 1) now.set(i);
 		if (now != ideal) {
-			if (now == coded) { oracleFail("view-clear-spill", vctx("clear()", x, u, w) + " cleared set bits beyond the view's width (whole units are zeroed)"); }
-			else oracleFail("view-clrall", vctx("clear()", x, u, w));
+			if (now == coded) { oracleFail("view-clear-spill", vctx("clear()", x, u, w) + " before=" + before + " cleared set bits beyond the view's width (whole units are zeroed)"); }
+			else oracleFail("view-clrall", vctx("clear()", x, u, w) + " before=" + before);
 		} else stat("bv.clrall_exact");
 		sh[x] = now;
 		checkAll("view-clrall", x);
@@ -483,8 +490,8 @@ struct BASession {
 		bool any = false; for (unsigned i = 0; i < w; ++i) any |= sh[x][8 * u + i];
 		if (r != any) oracleFail("view-bool", vctx("operator bool", x, u, w));
 		bool fullZero = true; for (unsigned i = 0; i < 8 * (w / 8); ++i) fullZero &= !sh[x][8 * u + i];
-		if (w % 8 == 0 && fullZero) stat("bv.bool_tail_read_outside_view(F9)");
-		if (w % 8 == 0 && fullZero && u + w / 8 == UC) stat("bv.bool_tail_read_outside_array(F9)");
+		if (w % 8 == 0 && fullZero) stat("bv.bool_whole_byte_view_all_zero(former_F9_read_outside_view)");
+		if (w % 8 == 0 && fullZero && u + w / 8 == UC) stat("bv.bool_whole_byte_view_all_zero_at_array_end(former_F9_read_outside_array)");
 	}
 };
 
@@ -573,7 +580,7 @@ static void exhaustiveArrays() {
 			S.opClr(0, i, true); S.opGet(0, i, false);
 			S.opClr(1, i, false);
 		}
-		// set() then drain below N: the padding-bit case
+		// set() then drain below N: the (repaired) padding-bit case; empty() must now answer 1
 		S.opSetAll(0);
 		for (unsigned i = 0; i < N; ++i) S.opClr(0, i, i & 1);
 		S.opEmpty(0); S.opNeq();
